@@ -7,7 +7,7 @@
    (drop the guard), and worker failure (the object stays alive, the guard with it).
    The directory lock itself is "exclusive, non-blocking, released when the guard drops"
    (RamDirectory: lock file created by open_write / deleted on drop; MmapDirectory: flock). *)
-From TV Require Import Base.Prelude.
+From TV Require Import Base.Prelude Generated.Constants.
 Local Open Scope N_scope.
 
 Definition wid := N.
@@ -42,7 +42,9 @@ Fixpoint set_guard (w : wid) (g' : bool) (l : list (wid * bool)) : list (wid * b
   | (x, g) :: r => if N.eqb x w then (x, g') :: r else (x, g) :: set_guard w g' r
   end.
 
-Definition lstep (s : lstate) (o : lop) : lstate * lres :=
+(* `safe`: rollback builds the replacement writer before taking the guard out of self (the order
+   of the two statements in IndexWriter::rollback, pinned from the source). *)
+Definition lstep_gen (safe : bool) (s : lstate) (o : lop) : lstate * lres :=
   match o with
   | Create w valid build_ok =>
       if held s then (s, RLockBusy)                                   (* acquire fails, nothing changes *)
@@ -55,7 +57,8 @@ Definition lstep (s : lstate) (o : lop) : lstate * lres :=
       | Some false => (s, RPanicNoLock)                                (* expect("... does not have any lock") *)
       | Some true =>
           if build_ok then (s, ROk)                                    (* guard moves into the rebuilt writer *)
-          else ({| held := false; writers := set_guard w false (writers s) |}, RIoErr)   (* F7 *)
+          else if safe then (s, RIoErr)                                (* rebuild failed: self keeps the guard *)
+          else ({| held := false; writers := set_guard w false (writers s) |}, RIoErr)   (* F7: guard dropped *)
       end
   | DropW w =>
       match find w (writers s) with
@@ -65,11 +68,15 @@ Definition lstep (s : lstate) (o : lop) : lstate * lres :=
   | WorkerFailure w => (s, ROk)
   end.
 
-Fixpoint lrun (s : lstate) (ops : list lop) : lstate * list lres :=
+Definition rollback_safe : bool := N.eqb ROLLBACK_BUILDS_BEFORE_TAKING_LOCK 1.
+Definition lstep := lstep_gen rollback_safe.
+
+Fixpoint lrun_gen (safe : bool) (s : lstate) (ops : list lop) : lstate * list lres :=
   match ops with
   | [] => (s, [])
-  | o :: r => let '(s1, x) := lstep s o in let '(s2, xs) := lrun s1 r in (s2, x :: xs)
+  | o :: r => let '(s1, x) := lstep_gen safe s o in let '(s2, xs) := lrun_gen safe s1 r in (s2, x :: xs)
   end.
+Definition lrun := lrun_gen rollback_safe.
 
 (* the known class F7: some rollback whose writer rebuild fails *)
 Definition f7_op (o : lop) : bool := match o with Rollback _ false => true | _ => false end.
